@@ -75,8 +75,26 @@ func c01Keygen[P curves.Point[P, F, S], F algebra.FiniteFieldElement[F], S algeb
 			o.Count("keygen-refused")
 			return nil
 		}
+		if cnfHasLargeID(spec) && strings.Contains(res.Net.StatusStr(), "panic") {
+			o.Violation(c01Prop, fmt.Sprintf("cnf-id-above-64-panic keygen=%s curve=%s spec=%s seed=%d/%d", keygen, g.name, spec, seed, stream))
+			return nil
+		}
+		if cnfPowerlessHolder(spec) {
+			o.Violation(c01Prop, fmt.Sprintf("cnf-powerless-holder keygen-failed keygen=%s curve=%s spec=%s seed=%d/%d status=%s", keygen, g.name, spec, seed, stream, res.Net.StatusStr()))
+			return nil
+		}
 		o.Violation(c01Prop, fmt.Sprintf("keygen-failed keygen=%s curve=%s spec=%s seed=%d/%d status=%s", keygen, g.name, spec, seed, stream, res.Net.StatusStr()))
 		return nil
+	}
+	for _, id := range ids {
+		if res.Shards[id] == nil {
+			key := "missing-shard"
+			if cnfPowerlessHolder(spec) {
+				key = "cnf-powerless-holder missing-shard"
+			}
+			o.Violation(c01Prop, fmt.Sprintf("%s party=%d keygen=%s curve=%s spec=%s seed=%d/%d", key, id, keygen, g.name, spec, seed, stream))
+			return nil
+		}
 	}
 	return &c01Key[P, F, S]{ac, spec, keygen, res.Shards}
 }
